@@ -96,6 +96,13 @@ func c03TimeNowAt(k uint64, spe uint64, nsec uint64) {
 	vnd.Assume(sec < 1<<33 && nsec < 1000000000)
 	elapsed := time.Duration(sec)*time.Second + time.Duration(nsec)
 	s := c03New(time.Unix(0, vnd.NowNs()-int64(elapsed)), time.Duration(k)*time.Second, spe)
+	if !vnd.Symbolic() {
+		// native replay only: the engine's clock stands still while the constructor
+		// runs, the real one does not (the constructor takes more than the 1 µs the
+		// claims below leave before a second boundary), so the genesis is anchored
+		// again at the instant the constructor returned
+		s.genesisTime = time.Unix(0, vnd.NowNs()-int64(elapsed))
+	}
 	cs := uint64(s.CurrentSlot())
 	ce := uint64(s.CurrentEpoch())
 	n := sec / k // the slot whose start is the latest one not after now
